@@ -18,6 +18,28 @@ CLAIMED = {
         note="Trusted: Lexical.tla/Pipeline.tla transcriptions; 'any class' = Exception subclasses; RecursionError beyond nesting 100 excluded.",
         technique="TLC enumeration of LexEnum.tla (spec->code) + TLC evaluation of recorded results against Pipeline.tla (code->spec)",
     ),
+    "C04": dict(
+        category="model_checking",
+        text=("Trace validation code->spec: payload sequences of real executions (8 fixed request shapes under exhaustive re-execution of every settle/pull "
+              "order, seeded generated requests with nested/labelled/if:false/overlapping @defer and @stream under random schedules, early execution off/on) are "
+              "applied by TLC exactly as the incremental-delivery format prescribes (Delivery.tla) and compared with the base Executor's response: equality when "
+              "the reference is error-free or propagation is disabled, the Withheld relation (subtrees nulled only under a reported error, fields/tails missing "
+              "only under an id completed with errors) otherwise."),
+        design_ref="DESIGN.md 5/C04",
+        note="Trusted: Delivery.tla's Apply/Withheld; the base Executor as reference (itself checked by C02); harness resolvers deterministic per response path.",
+        technique="TLC trace validation of recorded payload sequences against Delivery.tla (AssemblyClause)",
+    ),
+    "C05": dict(
+        category="model_checking",
+        text=("Model checking of WorkQueue.tla (method-by-method I-spec of work_queue.py with the publisher's id bookkeeping) over every well-formed work graph in "
+              "scope incl. nested work, all interleavings of task/stream/pull events: protocol and structural invariants, proper termination. Spec->code: one "
+              "behaviour per terminal state plus simulated walks are replayed into the real WorkQueue on a deterministic loop (batches compared with the model) and "
+              "fed through the real IncrementalPublisher. Code->spec: those payload sequences and end-to-end payload traces (exhaustive re-execution + seeded "
+              "schedules) are validated by TLC against the payload-level protocol spec Delivery.tla (D1-D7)."),
+        design_ref="DESIGN.md 5/C05",
+        note="Assumes WellFormedWork (a task's groups form an antichain); one consumer action per quiescent point; verdicts come only from Delivery.tla clauses and model invariants, replay mismatches are MODEL-DRIFT.",
+        technique="TLC model checking of WorkQueue.tla + behaviour replay into the real WorkQueue/Publisher + TLC trace validation against Delivery.tla",
+    ),
     "C09": dict(
         category="model_checking",
         text=("TLC checks the grammar theorems (spans disjoint/ordered with ignored gaps, filler insertion at every boundary invisible, Strip laws) on every string "
